@@ -1,5 +1,6 @@
 import Chain33Model.Proofs.C03Old
 import Chain33Model.Proofs.C03Member
+import Chain33Model.Proofs.C03Total
 /-!
 C03 — State proofs are complete, sound and crash-free.  Property theorems only
 (helpers: Proofs/C03.lean, C03Bytes.lean, C03Old.lean, C03Member.lean).
@@ -56,14 +57,10 @@ example (H : Bytes → Bytes) (hlen : ∀ x, (H x).length = 32) :
   · simp [t, r, Node.get, cmpB]
 
 /-- **proof_sound** — one proof (the same bytes) cannot be accepted for two different (key, value) pairs against
-the same root, unless the hash function has a collision. -/
+the same root, unless two DIFFERENT strings among those the two verification runs hash (`verifyTrace`: the leaf
+encoding and one inner-node encoding per branch, an explicit finite list) have the same hash.  (The unlocated
+`∃ x ≠ y, H x = H y` holds of every function with 32-byte outputs by counting; it is not what is stated.) -/
 theorem proof_sound {H : Bytes → Bytes} (hlen : ∀ x, (H x).length = 32) (root k v k' v' pb : Bytes)
-    (h1 : verifyKVPairProof H root k v pb = true) (h2 : verifyKVPairProof H root k' v' pb = true) :
-    (k' = k ∧ v' = v) ∨ Collision H :=
-  proof_sound_old hlen root k v k' v' pb (verifyKV_old_of_new h1) (verifyKV_old_of_new h2)
-
-/-- **proof_sound_located** — the same with the collision located among the strings the two runs hash. -/
-theorem proof_sound_located {H : Bytes → Bytes} (hlen : ∀ x, (H x).length = 32) (root k v k' v' pb : Bytes)
     (h1 : verifyKVPairProof H root k v pb = true) (h2 : verifyKVPairProof H root k' v' pb = true) :
     (k' = k ∧ v' = v) ∨ CollisionIn H (verifyTrace H k v pb ++ verifyTrace H k' v' pb) :=
   proof_sound_located_old hlen root k v k' v' pb (verifyKV_old_of_new h1) (verifyKV_old_of_new h2)
@@ -75,13 +72,18 @@ theorem verify_other_root (H : Bytes → Bytes) (root root' k v pb : Bytes)
   rw [verifyKV_eq_old, verify_other_root_old H root root' k v pb (verifyKV_old_of_new h1) hne]
   simp
 
-/-- **verify_total** — `VerifyKVPairProof` on arbitrary bytes: the model has no panic outcome at all (no Go
-operation on this path can panic: `proto.Unmarshal` returns an error, the getters of 5751cd9 are nil-safe, the
-fold only hashes), and undecodable bytes are rejected. -/
+/-- **verify_total** — `VerifyKVPairProof` on arbitrary bytes never panics.  `verifyKVPairProofP` is the verifier
+with the Go operations that CAN panic on this path written out with their panic outcome — the slice expressions
+`h[len(h)-32:]` in `Proof.Verify` (leaf hash) and `InnerNode.Hash` (both child hashes), `sliceFrom` — and it is what
+the driver runs against the implementation (which reports `panic` under `recover`).  For every input it returns
+`.ok`, namely the Bool-valued `verifyKVPairProof` all other theorems are about; undecodable bytes are rejected.
+(Not modelled as panic sources: `proto.Unmarshal` returns an error instead of panicking and allocates every element
+of the repeated field, so `branch.Height` never dereferences nil — compared with the implementation on ~10^4
+arbitrary byte strings per run, not proved.) -/
 theorem verify_total (H : Bytes → Bytes) (root k v pb : Bytes) :
-    (decodeProof pb = none → verifyKVPairProof H root k v pb = false) ∧
-    (∃ b : Bool, verifyKVPairProof H root k v pb = b) := by
-  refine ⟨fun h => by simp [verifyKVPairProof, h], ⟨_, rfl⟩⟩
+    verifyKVPairProofP H root k v pb = .ok (verifyKVPairProof H root k v pb) ∧
+    (decodeProof pb = none → verifyKVPairProof H root k v pb = false) :=
+  ⟨verifyKVPairProofP_ok H root k v pb, fun h => by simp [verifyKVPairProof, h]⟩
 
 /-- **verify_membership** (what 5751cd9 buys) — *any* bytes accepted by `VerifyKVPairProof` for `(k, v)` against
 the root of a hashed search tree prove that `(k, v)` is in that state — or exhibit a collision between two of the
@@ -145,29 +147,38 @@ theorem forgery_rejected (H : Bytes → Bytes) (root k' v' x y : Bytes) (rest : 
 /-- **branch_binds_child** — the fold step of `Proof.Verify` (`InnerNodeProofHash`) binds the hash coming up from
 the leaf for EVERY branch record, whatever sides it carries (one — what the store emits —, both, none): left empty
 ⇒ the child is hashed as the left side; otherwise the child REPLACES the right side.  Two different 32-byte child
-hashes give different results, or a collision.  (`proof_sound`, `verify_membership`, `fold_inj` are stated for
-arbitrary proof bytes / records and rest on this step.) -/
+hashes give different results, or the two strings hashed by the step (`stepPre`) are a collision.
+(`proof_sound`, `verify_membership` are stated for arbitrary proof bytes / records and rest on this step.) -/
 theorem branch_binds_child {H : Bytes → Bytes} (b : InnerNode) (c c' : Bytes) (hc : c.length = 32)
-    (hc' : c'.length = 32) (e : innerNodeProofHash H c b = innerNodeProofHash H c' b) : c = c' ∨ Collision H :=
-  step_inj hc hc' b e
+    (hc' : c'.length = 32) (e : innerNodeProofHash H c b = innerNodeProofHash H c' b) :
+    c = c' ∨ CollisionIn H [stepPre c b, stepPre c' b] := by
+  rw [step_eq, step_eq] at e
+  by_cases hpre : stepPre c b = stepPre c' b
+  · left
+    unfold stepPre at hpre
+    split at hpre
+    · exact innerEnc_inj_left hc hc' hpre
+    · exact innerEnc_inj_right hc hc' hpre
+  · exact Or.inr ⟨_, by simp, _, by simp, hpre, e⟩
 
 /-- **own_record_is_no_proof** — the node's own database record (both child hashes filled in) offered as the only
 branch of a proof: accepted for `(k, v)` only if the leaf hash of `(k, v)` IS the right child hash (the leaf on the
-right of a height-1 root, a pair that is in the state) — or a collision. -/
+right of a height-1 root, a pair that is in the state) — or the string the verifier hashes and the node's own
+encoding are a collision. -/
 theorem own_record_is_no_proof {H : Bytes → Bytes} (hlen : ∀ x, (H x).length = 32) (l r : Bytes) (ht sz : Int)
     (hl : l ≠ []) (hr : r.length = 32) (k v : Bytes)
     (hv : (⟨H (leafEnc k v), [⟨l, r, ht, sz⟩], H (innerEnc l r ht sz)⟩ : Proof).verify H k v
       (H (innerEnc l r ht sz)) = true) :
-    H (leafEnc k v) = r ∨ Collision H := by
+    H (leafEnc k v) = r ∨ CollisionIn H [innerEnc l (H (leafEnc k v)) ht sz, innerEnc l r ht sz] := by
   have e1 : l.isEmpty = false := by cases l <;> simp_all
   cases hg : goodBranch ⟨l, r, ht, sz⟩ with
   | false => simp [Proof.verify, verifyLoop, hg] at hv
   | true =>
     simp only [Proof.verify, bne_self_eq_false, Bool.false_eq_true, if_false, last32_of_length (hlen _),
       verifyLoop, hg, if_true, innerNodeProofHash, e1, beq_iff_eq] at hv
-    rcases eq_or_collision hv with e | c
+    by_cases e : innerEnc l (H (leafEnc k v)) ht sz = innerEnc l r ht sz
     · exact Or.inl (innerEnc_inj_right (hlen _) hr e)
-    · exact Or.inr c
+    · exact Or.inr ⟨_, by simp, _, by simp, e, hv⟩
 
 /-- **fill_only_empty_side_forgery** (regression witness) — had the step filled the child hash only into an EMPTY
 side (`innerNodeProofHashFill`), the root's own record would verify EVERY `(k, v)` against that root. -/
